@@ -83,3 +83,50 @@ def build(hist, naming, log=False):
     b = Builder(naming, log=log)
     b.run(hist)
     return b.model, b.events
+
+
+def _perm(seq, how):
+    seq = list(seq)
+    if how == 'rev':
+        return seq[::-1]
+    if how == 'rot':
+        return seq[1:] + seq[:1]
+    return seq
+
+
+STRATEGY = {   # strategy -> (children, relations per owner, constraints)
+    'none': ('', '', ''), 'id': ('', '', ''), 'edit': ('', '', ''),
+    'revkids': ('rev', '', ''), 'rotkids': ('rot', '', ''), 'revrels': ('', 'rev', ''),
+    'revctcs': ('', '', 'rev'), 'revall': ('rev', 'rev', 'rev'),
+}
+
+
+def build_from_model(m, naming, strategy='none'):
+    """Build an independent object graph for the abstract model m through the
+    public constructors, with children / relations / constraints added in the
+    order the strategy says."""
+    kp, rp, cp = STRATEGY[strategy]
+    objs = {}
+    for f in m['feats']:
+        objs[f['name']] = Feature(naming.conc(f['name']))
+    for f in m['feats']:
+        o = objs[f['name']]
+        if f['abs']:
+            o.is_abstract = True
+        if f['ftype'] != 'Boolean':
+            o.feature_type = FeatureType(f['ftype'])
+        if (f['fclo'], f['fchi']) != (1, 1):
+            o.feature_cardinality = Cardinality(f['fclo'], f['fchi'])
+        for a in f['attrs']:
+            o.add_attribute(Attribute(naming.conc(a['name']), undomtok(a['dom']), untok(a['val']), untok(a['nul'])))
+    owners = []
+    for r in m['rels']:
+        if r['owner'] not in owners:
+            owners.append(r['owner'])
+    for on in owners:
+        rels = [r for r in m['rels'] if r['owner'] == on]
+        for r in _perm(rels, rp):
+            kids = [objs[k] for k in _perm(r['kids'], kp)]
+            objs[on].add_relation(Relation(objs[on], kids, r['lo'], r['hi']))
+    ctcs = [Constraint(c['name'], AST(build_node(c['ast'], naming))) for c in _perm(m['ctcs'], cp)]
+    return FeatureModel(objs[m['root']], ctcs), objs
